@@ -18,7 +18,7 @@ type Case struct {
 	Req        *Req    `json:"req,omitempty"`
 	Direct     *Direct `json:"direct,omitempty"`
 	Walk       *Walk   `json:"walk,omitempty"`
-	Codec      *int    `json:"codec,omitempty"`
+	Codec      *cur    `json:"codec,omitempty"`
 }
 
 type Direct struct {
@@ -567,13 +567,13 @@ func (h *harness) evalWalk(c Case) (what, kind string) {
 
 func (h *harness) evalCodec(c Case) (what, kind string) {
 	v := *c.Codec
-	s := emit(v)
-	d, ok, p := decode(s)
+	s := emitAny(v)
+	d, ok, p := decodeFull(s)
 	if p != "" {
 		return "DeserializeCursor panicked on an emitted cursor: " + p, "crash"
 	}
 	if !ok || d != v {
-		return fmt.Sprintf("Deserialize(Serialize(%d)) = %v (accepted: %v)", v, d, ok), "property"
+		return fmt.Sprintf("Deserialize(Serialize(%v)) = %v (accepted: %v)", v, d, ok), "property"
 	}
 	if s == "" {
 		return "a cursor serialises to the empty string (which the connection treats as absent)", "property"
